@@ -299,3 +299,6 @@ def run(ctx):
                    'NOT checked against NULL: sf_open* (…, NULL, …) crashes instead of failing with SFE_BAD_SF_INFO_PTR'), repr(b))
     ctx.require(nd >= 4, 'only %d SF_INFO dereferences found in the open functions' % nd)
 
+    from engine.run import borrow
+    borrow(ctx, 'C06', ['SEEK-GATE'], 'an out-of-range seek must be refused (SFE_BAD_SEEK) whatever mode bits the whence carries')
+
